@@ -213,6 +213,9 @@ def enabled_events(tracks, w, kinds=None):
         pix0 = _block_bg(tracks, 1) if w["seg"] else None
         ev.append(("add_node", nid, 1, nxt, False, "no_time", pix0))
         ev.append(("add_node", nid, 1, nxt, False, "no_tid", pix0))
+        # the key is present but carries no value (None): as missing as an absent key
+        ev.append(("add_node", nid, 1, nxt, False, "none_tid", pix0))
+        ev.append(("add_node", nid, 1, nxt, False, "none_time", pix0))
         if not w["seg"]:
             for tid in cand_tids[:3]:
                 ev.append(("add_node", nid, 1, tid, True, "no_pos", None))
@@ -298,6 +301,9 @@ def enabled_events(tracks, w, kinds=None):
                 for m in labels:
                     ev.append(("paint", t, pix, m, nxt, False, name))
                 ev.append(("paint", t, pix, nid, nxt, False, name))
+                # no track selected (None) while a new label is painted: refused by the nested
+                # add-node, i.e. after the nodes under the stroke were shrunk / deleted
+                ev.append(("paint", t, pix, nid, None, False, name))
                 for tid in ext:
                     ev.append(("paint", t, pix, nid, tid, False, name))
                     ev.append(("paint", t, pix, nid, tid, True, name))
@@ -441,6 +447,10 @@ def apply_event(tracks, w, ev, restore_on_refusal=True) -> Outcome:
                 del attrs[tracks.features.time_key]
             if variant == "no_tid":
                 del attrs[tracks.features.tracklet_key]
+            if variant == "none_tid":
+                attrs[tracks.features.tracklet_key] = None
+            if variant == "none_time":
+                attrs[tracks.features.time_key] = None
             pixels = None
             if variant == "stale_attrs":
                 for k in tracks.annotators.features:
